@@ -702,7 +702,15 @@ impl<'a> GeneratorState<'a> {
                 | Operation::Lt
                 | Operation::Lte
                 | Operation::Land
-                | Operation::Lor => self.generate_expr_cond(expr, pos),
+                | Operation::Lor => {
+                    if high_byte {
+                        // The value is 0 or 1: its high byte is 0, and the comparison is not
+                        // evaluated a second time
+                        Ok(ExprType::Immediate(0))
+                    } else {
+                        self.generate_expr_cond(expr, pos)
+                    }
+                }
                 Operation::Bls(true) | Operation::Brs(true) => {
                     let left = self.generate_expr(lhs, pos, false, second_time)?;
                     let right = self.generate_expr(rhs, pos, false, second_time)?;
@@ -977,7 +985,14 @@ impl<'a> GeneratorState<'a> {
                 Ok(expr_type)
             }
             Expr::Neg(v) => self.generate_neg(v, pos, high_byte),
-            Expr::Not(v) => self.generate_not(v, pos),
+            Expr::Not(v) => {
+                if high_byte {
+                    // The value is 0 or 1: its high byte is 0
+                    Ok(ExprType::Immediate(0))
+                } else {
+                    self.generate_not(v, pos)
+                }
+            }
             Expr::BNot(v) => self.generate_bnot(v, pos, high_byte),
             Expr::Deref(v) => self.generate_deref(v, pos),
             Expr::Addr(v) => self.generate_addr(v, pos),
